@@ -184,6 +184,17 @@ func ruleC04(c *Ctx) {
 		R.Check(ok && x.Key() == "$param:"+s.param, "render.(*Renderer)."+s.method+"#"+s.sel, c.FPos(fn), "argument & 63", shortKey(after))
 	}
 
+	// SetLOD stores the bounds as given (an inverted pair is an empty range, not a reordered one)
+	if fn := c.Method("render", "Renderer", "SetLOD", true); fn != nil {
+		in, mem, _ := r.run(fn, map[string]*sym.Term{"lod0": sym.Atom("old.lod0", f32), "lod1": sym.Atom("old.lod1", f32)})
+		z := r.zobj(in)
+		R.Use("C04.5")
+		l0 := in.LoadAt(mem, z, r.fieldPath("lod0"))
+		l1 := in.LoadAt(mem, z, r.fieldPath("lod1"))
+		ok := len(fn.Params) == 3 && l0.Key() == "$param:"+fn.Params[1].Name() && l1.Key() == "$param:"+fn.Params[2].Name()
+		R.Check(ok, "render.(*Renderer).SetLOD#bounds", c.FPos(fn), "lod0, lod1 := the two arguments, in order, unconditionally", shortKey(l0)+", "+shortKey(l1))
+	}
+
 	ruleResolve(c, "C04.4")
 
 	// ---- C04.5/6 StartPath: paint classification and LOD test ----
